@@ -14,7 +14,7 @@ def one(path):
             return name, {'apply': r.stderr[:200]}
         rt = subprocess.run('/verif/tools/basecheck.sh %s' % d, shell=True, capture_output=True, text=True)
         out['tests'] = rt.returncode
-        own = name.split('-')[0]
+        own = name[:3]
         for c in [own] + [x for x in ALL if x != own]:
             env = dict(os.environ, VERIF_REPO=d, VERIF_OUT=d, VERIF_SHARDS='2')
             r = subprocess.run(['/venv/bin/python', '/verif/run_check.py', c], env=env, capture_output=True, text=True, cwd='/verif')
